@@ -21,13 +21,16 @@ Inductive obs :=
 
 Record c09case := mkCase {
   i_l1 : list l1block;              (* blocks handed to the real l1infotreesync processor, in order *)
-  i_fin : option (N * N);           (* the L1 node's finalized header (number, hash); None = RPC error *)
+  i_fin : option (N * N);           (* the L1 node's finalized header (number, hash) *)
+  i_fin_fails : bool;               (* the query for it fails (RPC error) in the observed attempt *)
   i_hdrs : list (N * N);            (* the L1 node's header hash by number; absent = RPC error *)
   i_claims : list claim_ev;         (* the claims as the real L2 bridge store returned them for the block range *)
   i_named : option N;               (* second observation: getImportedBridgeExits called directly with this named root *)
   o_l1res : list bool;              (* ProcessBlock ok? per block *)
   o_pp : obs;                       (* PPFlow.GetCertificateBuildParams + BuildCertificate *)
-  o_direct : obs }.                 (* baseFlow.VerifyBuildParams, then getImportedBridgeExits(claims, named root); leaf_count unused (0) *)
+  o_direct : obs;                   (* baseFlow.VerifyBuildParams, then getImportedBridgeExits(claims, named root); leaf_count unused (0) *)
+  o_guard : option bool }.          (* L1InfoTreeDataQuerier.CheckIfClaimsArePartOfFinalizedL1InfoTree(named root, claims) returned nil?
+                                       (the test the aggchain-prover flow makes before it builds; None = not asked) *)
 
 Definition err_code (e : ferr) : N :=
   match e with
@@ -70,7 +73,7 @@ Definition obs_eqb (a b : obs) : bool :=
 
 (* ---- model vs implementation ---- *)
 Definition model_pp (st : l1state) (c : c09case) : obs :=
-  match pp_build_exec st (client_of (i_fin c) (i_hdrs c)) (i_claims c) with
+  match pp_build_exec st (client_of (if i_fin_fails c then None else i_fin c) (i_hdrs c)) (i_claims c) with
   | inl e => OErr (err_code e)
   | inr None => ONoCert
   | inr (Some cc) => OCert (r_hash (cc_root cc)) (cc_leaf_count cc) (cc_imported cc)
@@ -155,6 +158,16 @@ Definition spec (c : c09case) : bool :=
        (root =? r) &&
        match ref_count_of_root c r with
        | Some n => spec_cert c n r n ibes
+       | None => true
+       end
+   | _, _ => true
+   end) &&
+  (* the guard of the aggchain-prover flow is exact: it accepts the claims for a named root iff every claim's global exit root is
+     one of the leaves that root covers - which is what puts the certificates of that flow inside the quantifier *)
+  (match o_guard c, i_named c with
+   | Some b, Some r =>
+       match ref_count_of_root c r with
+       | Some n => Bool.eqb b (forallb (fun cl => match ref_index_of_ger c (k_ger cl) with Some j => j <? n | None => false end) (i_claims c))
        | None => true
        end
    | _, _ => true
